@@ -359,3 +359,82 @@ func tailStr(s string, n int) string {
 	}
 	return s
 }
+
+var errNoCandidate = fmt.Errorf("self-test: no history offers a line to corrupt")
+
+// selfTest demonstrates that the trace validation binds: a recorded history
+// with one corrupted cache entry, and one with a registering request
+// dropped, must both be rejected by TLC at the corrupted line.
+func (rep *reporter) selfTest(h *history, scratch string) error {
+	lines := h.lines()
+	if len(lines) > 120 {
+		lines = lines[:120]
+	}
+	corrupt, drop := -1, -1
+	type recLine struct {
+		Out  AOut        `json:"out"`
+		Ents [][2]string `json:"ents"`
+	}
+	recs := make([]recLine, len(lines))
+	for i := 1; i < len(lines); i++ {
+		if err := json.Unmarshal(lines[i], &recs[i]); err != nil {
+			return err
+		}
+	}
+	has := func(r recLine, k string) bool {
+		for _, e := range r.Ents {
+			if e[0] == k {
+				return true
+			}
+		}
+		return false
+	}
+	for i := 1; i < len(lines); i++ {
+		if corrupt < 0 && len(recs[i].Ents) > 0 {
+			corrupt = i
+		}
+		// a request that newly registered k, followed by one that still sees k
+		// without registering it itself
+		if ops := recs[i].Out.Ops; drop < 0 && i+1 < len(lines) && len(ops) == 1 && ops[0].Op == "add" &&
+			!has(recs[i-1], ops[0].H) && has(recs[i+1], ops[0].H) {
+			if n := recs[i+1].Out.Ops; len(n) == 0 || n[0].Op != "add" || n[0].H != ops[0].H {
+				drop = i
+			}
+		}
+	}
+	if corrupt < 0 || drop < 0 {
+		return errNoCandidate
+	}
+	run := func(name string, ls [][]byte, wantAt int) error {
+		res, err := vlib.RunTLC(vlib.TLCOpts{Module: "ApqTrace", Config: "ApqTrace.cfg", Workers: 1, DFS: true,
+			Data:    map[string][]byte{"trace.ndjson": append(bytes.Join(ls, []byte("\n")), '\n'), "consts.json": constsJSON()},
+			Scratch: filepath.Join(scratch, name), Timeout: 5 * time.Minute})
+		if err != nil {
+			return err
+		}
+		if res.OK || res.RejectedAt != wantAt {
+			return fmt.Errorf("self-test %s: TLC should reject the corrupted trace at line %d (OK=%v, rejected at %d)\n%s", name, wantAt, res.OK, res.RejectedAt, tailStr(res.Output, 1500))
+		}
+		return nil
+	}
+	// (a) one cache entry bound to another text
+	var m map[string]any
+	if err := json.Unmarshal(lines[corrupt], &m); err != nil {
+		return err
+	}
+	e0 := m["ents"].([]any)[0].([]any)
+	if e0[1] == "q5" {
+		e0[1] = "q4"
+	} else {
+		e0[1] = "q5"
+	}
+	bad, _ := json.Marshal(m)
+	a := append([][]byte{}, lines...)
+	a[corrupt] = bad
+	if err := run("self-corrupt", a, corrupt+1); err != nil {
+		return err
+	}
+	// (b) the request that changed the cache is missing from the record
+	b := append(append([][]byte{}, lines[:drop]...), lines[drop+1:]...)
+	return run("self-drop", b, drop+1)
+}
